@@ -124,6 +124,25 @@ func (c apiConn) sessionless() bmc.Sessionless {
 }
 
 // apiInvoke calls the real method; the value is rendered only when the error is nil
+// results handed to the caller stay the caller's: every response struct returned by a call is kept and dumped again
+// after the LAST call on the connection; a later call must not have changed it (a wrapper that caches its command
+// struct would)
+type apiHeldResult struct {
+	l    gopacket.DecodingLayer
+	dump string
+}
+
+var apiHeld []apiHeldResult
+
+// BaseLayer.Contents / Payload are gopacket's zero-copy windows into the packet data (here: the connection's receive /
+// decrypt buffer), which the next packet legitimately overwrites; the decoded FIELDS are the caller's
+var apiHeldHide = map[string]bool{"Contents": true, "Payload": true}
+
+func holdDump(l gopacket.DecodingLayer) string {
+	apiHeld = append(apiHeld, apiHeldResult{l, dumpLayer(l, apiHeldHide)})
+	return dumpLayer(l, nil)
+}
+
 func apiInvoke(ctx context.Context, c apiConn, name string, a []string) (val string, err error) {
 	n := func(i int) int { return int(c06Int(a[i])) }
 	caps := func() dcmi.SessionlessCommands {
@@ -144,25 +163,25 @@ func apiInvoke(ctx context.Context, c apiConn, name string, a []string) (val str
 		if err != nil {
 			return "", err
 		}
-		return dumpLayer(r, nil), nil
+		return holdDump(r), nil
 	case "GetSessionInfo":
 		r, err := c.sess.GetSessionInfo(ctx, c06Layer("sessioninfo", a).(*ipmi.GetSessionInfoReq))
 		if err != nil {
 			return "", err
 		}
-		return dumpLayer(r, nil), nil
+		return holdDump(r), nil
 	case "GetDeviceID":
 		r, err := c.sess.GetDeviceID(ctx)
 		if err != nil {
 			return "", err
 		}
-		return dumpLayer(r, nil), nil
+		return holdDump(r), nil
 	case "GetChassisStatus":
 		r, err := c.sess.GetChassisStatus(ctx)
 		if err != nil {
 			return "", err
 		}
-		return dumpLayer(r, nil), nil
+		return holdDump(r), nil
 	case "ChassisControl":
 		if err := c.sess.ChassisControl(ctx, ipmi.ChassisControl(uint(c06Int(a[0])))); err != nil {
 			return "", err
@@ -173,19 +192,19 @@ func apiInvoke(ctx context.Context, c apiConn, name string, a []string) (val str
 		if err != nil {
 			return "", err
 		}
-		return dumpLayer(r, nil), nil
+		return holdDump(r), nil
 	case "ReserveSDRRepository":
 		r, err := c.sess.ReserveSDRRepository(ctx)
 		if err != nil {
 			return "", err
 		}
-		return dumpLayer(r, nil), nil
+		return holdDump(r), nil
 	case "GetSensorReading":
 		r, err := c.sess.GetSensorReading(ctx, uint8(n(0)))
 		if err != nil {
 			return "", err
 		}
-		return dumpLayer(r, nil), nil
+		return holdDump(r), nil
 	case "GetSessionPrivilegeLevel":
 		l, err := c.sess.GetSessionPrivilegeLevel(ctx)
 		if err != nil {
@@ -208,13 +227,13 @@ func apiInvoke(ctx context.Context, c apiConn, name string, a []string) (val str
 		if err != nil {
 			return "", err
 		}
-		return dumpLayer(r, nil), nil
+		return holdDump(r), nil
 	case "GetDCMISensorInfo":
 		r, err := dcmi.NewSessionCommander(c.sess).GetDCMISensorInfo(ctx, c06Layer("dcmisensorinfo", a).(*dcmi.GetDCMISensorInfoReq))
 		if err != nil {
 			return "", err
 		}
-		return dumpLayer(r, nil), nil
+		return holdDump(r), nil
 	case "GetDCMICapabilitiesInfoSupportedCapabilities":
 		r, err := caps().GetDCMICapabilitiesInfoSupportedCapabilities(ctx)
 		if err != nil {
@@ -330,6 +349,8 @@ func execApi(a []string) (string, string) {
 	}
 	var outs []string
 	verdict := ""
+	apiHeld = nil
+	defer func() { apiHeld = nil }()
 	rest := a[8:]
 	for len(rest) >= 4 {
 		name, args, entropy := rest[0], splitArgs(rest[1]), unhx(rest[2])
@@ -394,6 +415,11 @@ func execApi(a []string) (string, string) {
 			if v := apiJudge(e, spec, args, script, entropy, res, sent, before, lid, rid, integ, k1, k2); v != "" {
 				verdict = fmt.Sprintf("call %d (%s): %s", len(outs), name, v)
 			}
+		}
+	}
+	for i, h := range apiHeld {
+		if now := dumpLayer(h.l, apiHeldHide); now != h.dump && verdict == "" {
+			verdict = fmt.Sprintf("the result returned to the caller by an earlier call (#%d held) was changed by a later call on the connection: was %s, now %s", i+1, h.dump, now)
 		}
 	}
 	return strings.Join(outs, " ; "), verdict
